@@ -94,8 +94,13 @@ class Collector:
             # a signature-mismatch TypeError raised by a call the HARNESS makes is not a verdict on the code
             exc_txt = str((witness or {}).get("exc", "")) if isinstance(witness, dict) else ""
             origin = getattr(E.LAST_CTX, "exc_origin", None)
-            if "TypeError" in exc_txt and any(t in exc_txt for t in E._SIG_MISMATCH) and origin and os.path.abspath(origin).startswith(os.path.dirname(os.path.dirname(os.path.abspath(__file__))) + os.sep):
-                self.note_inconclusive("harness/interface mismatch (the harness calls a function with arguments its signature no longer accepts): %s" % exc_txt[:200])
+            in_harness = bool(origin) and os.path.abspath(origin).startswith(os.path.dirname(os.path.dirname(os.path.abspath(__file__))) + os.sep)
+            sig = "TypeError" in exc_txt and any(t in exc_txt for t in E._SIG_MISMATCH)
+            # ... and so is an AttributeError / KeyError raised by the harness's OWN line (it looked up a field / parameter by a name the
+            # code no longer uses); exceptions raised inside the code under test are untouched by this rule
+            lookup = exc_txt.startswith(("AttributeError(", "KeyError("))
+            if in_harness and (sig or lookup):
+                self.note_inconclusive("harness/interface mismatch (the harness addresses the code by a signature / attribute / key it no longer has): %s" % exc_txt[:200])
                 return
         self.obligations += 1
         if not model and E.LAST_CTX is not None:
